@@ -10,8 +10,8 @@ def mk(prop, name, file, old, new, count=1):
     assert s.count(old)>=1,(name,'no match')
     s2=s.replace(old,new,count)
     open(p,'wb').write(s2.encode())
-    d=subprocess.check_output(['git','diff'],cwd=REPO,text=True)
+    d=subprocess.check_output(['git','diff','--binary'],cwd=REPO)
     os.makedirs('/verif/selftest/%s'%prop,exist_ok=True)
-    open('/verif/selftest/%s/%s.diff'%(prop,name),'w').write(d)
+    open('/verif/selftest/%s/%s.diff'%(prop,name),'wb').write(d)
     subprocess.check_call(['git','checkout','--','.'],cwd=REPO)
     print('made',prop,name)
